@@ -598,6 +598,65 @@ func stmtTexts(fd *ast.FuncDecl) []string {
 	return out
 }
 
+// ordered sequence of synchronisation-relevant operations of a function body, in source order (closures included):
+// lock/unlock calls, closed-checks, close(ch), channel sends, go statements, defers and the calls named in `interesting`
+var interesting = map[string]bool{
+	"c.RLock": true, "c.RUnlock": true, "c.Lock": true, "c.Unlock": true,
+	"c.recvsMu.Lock": true, "c.recvsMu.Unlock": true, "c.recvsMu.RLock": true, "c.recvsMu.RUnlock": true,
+	"c.stateMu.Lock": true, "c.stateMu.Unlock": true, "c.closeOnce.Do": true, "conn.closeOnce.Do": true, "conn.onPacketOnce.Do": true,
+	"c.closed": true, "conn.closed": true, "c.register": true, "c.unregister": true, "c.recv": true, "c.write": true,
+	"conn.Write": true, "conn.write": true, "c.dial": true, "dialer": true, "c.reconnect": true, "c.reconnecting": true, "c.reconnectDial": true,
+	"c.auth": true, "c.afterReconnected": true, "c.onClose": true, "c.conn.Close": true, "conn.Close": true, "old.Close": true,
+	"conn.conn.Close": true, "conn.DispatchClose": true, "c.Close": true, "c.Do": true, "c.handleResponse": true, "c.handlePush": true,
+	"c.handleControl": true, "c.handlePing": true, "c.handlePong": true, "c.closeByServer": true, "c.isAuthExpired": true,
+	"conn.OnPacket": true, "conn.OnClose": true, "protocol.NewRequest": true, "time.Sleep": true, "conn.addPacket": true, "conn.readPacket": true,
+	"conn.p.Pack": true, "conn.p.Unpack": true, "conn.p.UnpackBytes": true, "conn.conn.Write": true, "conn.conn.Read": true,
+	"conn.conn.WriteMessage": true, "conn.conn.WriteControl": true, "fn": true, "sub": true, "cb": true,
+}
+
+func opSeq(fd *ast.FuncDecl) []string {
+	out := []string{}
+	if fd == nil || fd.Body == nil {
+		return out
+	}
+	var walk func(n ast.Node, pre string)
+	walk = func(n ast.Node, pre string) {
+		ast.Inspect(n, func(x ast.Node) bool {
+			switch v := x.(type) {
+			case *ast.DeferStmt:
+				walk(v.Call, pre+"defer:")
+				return false
+			case *ast.GoStmt:
+				out = append(out, pre+"go")
+				walk(v.Call, pre)
+				return false
+			case *ast.SendStmt:
+				out = append(out, pre+"send:"+exprText(v.Chan))
+			case *ast.UnaryExpr:
+				if v.Op == token.ARROW {
+					out = append(out, pre+"recv:"+exprText(v.X))
+				}
+			case *ast.SelectStmt:
+				out = append(out, pre+"select")
+			case *ast.CommClause:
+				if v.Comm == nil {
+					out = append(out, pre+"default")
+				}
+			case *ast.CallExpr:
+				f := exprText(v.Fun)
+				if f == "close" && len(v.Args) == 1 {
+					out = append(out, pre+"close:"+exprText(v.Args[0]))
+				} else if interesting[f] {
+					out = append(out, pre+f)
+				}
+			}
+			return true
+		})
+	}
+	walk(fd.Body, "")
+	return out
+}
+
 func q(xs []string) string {
 	o := []string{}
 	for _, x := range xs {
@@ -710,6 +769,14 @@ func main() {
 	// structure facts: the statement lists of the tiny constructors around the request-id generator
 	for _, fn := range []string{"GetRequestIDGen", "NewRequest", "MustNewRequest", "NewResponse", "MustNewResponse", "NewPush", "MustNewPush"} {
 		fmt.Fprintf(&w, "def stmts_%s : List String := %s\n", fn, q(stmtTexts(findFunc(pkgs["protocol"], "", fn))))
+	}
+	// operation sequences of the client and the transports (T2 "structure": the calls themselves, in source order)
+	for _, fr := range [][2]string{{"client", "Do"}, {"client", "Close"}, {"client", "dial"}, {"client", "reconnecting"}, {"client", "reconnect"},
+		{"client", "reconnectDial"}, {"client", "handleResponse"}, {"client", "register"}, {"client", "unregister"}, {"client", "recv"},
+		{"client", "closeByServer"}, {"client", "onConnClose"}, {"client", "onPacket"}, {"client", "handlePush"}, {"client", "handleControl"},
+		{"tcpConn", "write"}, {"tcpConn", "Close"}, {"tcpConn", "OnPacket"}, {"tcpConn", "addPacket"}, {"tcpConn", "Write"},
+		{"wsConn", "write"}, {"wsConn", "Close"}, {"wsConn", "OnPacket"}, {"wsConn", "addPacket"}, {"wsConn", "Write"}} {
+		fmt.Fprintf(&w, "def seq_%s_%s : List String := %s\n", fr[0], fr[1], q(opSeq(findFunc(pkgs["client"], fr[0], fr[1]))))
 	}
 	fmt.Fprintln(&w, "end OAP.Gen")
 	out := filepath.Join(outDir, "Facts.lean")
